@@ -1,6 +1,7 @@
 import UralModel.Model.NormalizeUrl
 import UralModel.Lemmas.UrlRoundTrip
 import UralModel.Lemmas.CanonRoundTrip
+import UralModel.Lemmas.TldUrl
 /-!
 # Bridging: what the modelled parser returns on a string, in terms of its pieces
 
@@ -8,8 +9,8 @@ The theorems of the `normalize_url` family (C04–C06) are stated on `Parsed` re
 proves, for the *modelled* parser (`Py.urlsplit` + accessors, compared with CPython on every
 run), what it returns on every string of an explicit, decidable grammar
 
-    [ letters{1,64} "://" | "//" | nothing ]  [ userinfo "@" ]  host  [ ":" port ]
-        [ "/" path ]  [ "?" query ]  [ "#" fragment ]
+    [ letters{1,64} "://" | "//" | nothing ]  [ userinfo "@" ]  ( host | "[" ip-literal "]" )
+        [ ":" port ]  [ "/" path ]  [ "?" query ]  [ "#" fragment ]
 
 (`UrlG`, `UrlG.str`, `UrlG.wf`): the record `UrlG.parsed` built from the pieces
 (`parse_str`).  A transformation of the documented-irrelevant family that acts on the authority
@@ -19,8 +20,10 @@ parser returns on `T(u)` is read off `UrlG.parsed`: the string-level corollaries
 
 Class of strings (`UrlG.wf`): the scheme prefix is 1–64 ASCII letters + `://` (what
 `PROTOCOL_RE` recognises), `//`, or nothing — in which case the rest must not itself start like a
-protocol (`localhost://x`); userinfo without `/ ? # [ ]`; host without `/ ? # @ : [ ]` (no IPv6
-literal); port text without `/ ? # @ [ ]` (its validity is `portVal`: digits ≤ 65535, or empty);
+protocol (`localhost://x`); userinfo without `/ ? # [ ]`; host without `/ ? # @ : [ ]`, or — `br` —
+an IP literal `[h]`, `h` without `/ ? # @ [ ]` and passing the model's bracket check
+(`bracketedHostOk`: IPv6 hex groups with an optional `%zone`, IPvFuture; no IPv4 tail);
+port text without `/ ? # @ [ ]` (its validity is `portVal`: digits ≤ 65535, or empty);
 path empty or starting with `/`, without `? #`; query without `#`.  No tab / CR / LF anywhere
 (a cleaned string never has one).
 -/
@@ -63,6 +66,8 @@ structure UrlG where
   path : Str
   query : Option Str
   fragment : Option Str
+  /-- the host text stands between brackets (an IP literal: `[::1]`, `[v1.x]`) -/
+  br : Bool := false
   deriving DecidableEq, Repr
 
 def uiPart : Option Str → Str
@@ -78,7 +83,9 @@ def fPart : Option Str → Str
   | none => []
   | some f => '#' :: f
 
-def UrlG.netloc (g : UrlG) : Str := uiPart g.ui ++ (g.host ++ portPart g.port)
+/-- the host as written: between brackets for an IP literal -/
+def UrlG.hostPart (g : UrlG) : Str := if g.br then '[' :: (g.host ++ [']']) else g.host
+def UrlG.netloc (g : UrlG) : Str := uiPart g.ui ++ (g.hostPart ++ portPart g.port)
 def UrlG.tail (g : UrlG) : Str := g.path ++ (qPart g.query ++ fPart g.fragment)
 /-- everything after the scheme prefix -/
 def UrlG.rest (g : UrlG) : Str := g.netloc ++ g.tail
@@ -101,7 +108,8 @@ def Proto.ok : Proto → Str → Bool
 def UrlG.wf (g : UrlG) : Bool :=
   g.proto.ok g.rest &&
   freeOpt ['/', '?', '#', '[', ']'] g.ui &&
-  free ['/', '?', '#', '@', ':', '[', ']'] g.host &&
+  (if g.br then free ['/', '?', '#', '@', '[', ']'] g.host && bracketedHostOk g.host
+   else free ['/', '?', '#', '@', ':', '[', ']'] g.host) &&
   freeOpt ['/', '?', '#', '@', '[', ']'] g.port &&
   (g.path.isEmpty || startsWith g.path ['/']) &&
   free ['?', '#'] g.path &&
@@ -171,7 +179,8 @@ theorem mem_portPart' {c : Char} {p : Option Str} (h : c ∈ portPart p) :
 structure WFacts (g : UrlG) : Prop where
   proto : g.proto.ok g.rest = true
   ui : freeOpt ['/', '?', '#', '[', ']'] g.ui = true
-  host : free ['/', '?', '#', '@', ':', '[', ']'] g.host = true
+  host : (if g.br then free ['/', '?', '#', '@', '[', ']'] g.host && bracketedHostOk g.host
+    else free ['/', '?', '#', '@', ':', '[', ']'] g.host) = true
   port : freeOpt ['/', '?', '#', '@', '[', ']'] g.port = true
   pabs : (g.path.isEmpty || startsWith g.path ['/']) = true
   path : free ['?', '#'] g.path = true
@@ -186,43 +195,91 @@ theorem wf_of_facts {g : UrlG} (h : WFacts g) : g.wf = true := by
   simp only [UrlG.wf, Bool.and_eq_true]
   exact ⟨⟨⟨⟨⟨⟨h.proto, h.ui⟩, h.host⟩, h.port⟩, h.pabs⟩, h.path⟩, h.query⟩
 
-/-- no netloc delimiter, no bracket in the authority -/
-theorem netloc_free {g : UrlG} (h : WFacts g) : ∀ c ∈ g.netloc, c ∉ ['/', '?', '#', '[', ']'] := by
+/-- the host text: never a delimiter, `@` or a bracket -/
+theorem host_free {g : UrlG} (h : WFacts g) : free ['/', '?', '#', '@', '[', ']'] g.host = true := by
+  have hh := h.host
+  cases hb : g.br with
+  | true => rw [hb] at hh; simp only [if_true, Bool.and_eq_true] at hh; exact hh.1
+  | false =>
+    rw [hb] at hh
+    simp only [Bool.false_eq_true, if_false] at hh
+    rw [free_iff] at hh ⊢
+    intro c hc hbad
+    apply hh c hc
+    simp only [List.mem_cons, List.not_mem_nil, or_false] at hbad ⊢
+    rcases hbad with h | h | h | h | h | h <;> simp [h]
+
+/-- a host that is not an IP literal holds no colon -/
+theorem host_no_colon {g : UrlG} (h : WFacts g) (hb : g.br = false) : ':' ∉ g.host := by
+  have hh := h.host
+  rw [hb] at hh
+  simp only [Bool.false_eq_true, if_false] at hh
+  exact free_not_mem hh (by simp)
+
+theorem host_br_ok {g : UrlG} (h : WFacts g) (hb : g.br = true) : bracketedHostOk g.host = true := by
+  have hh := h.host
+  rw [hb] at hh
+  simp only [if_true, Bool.and_eq_true] at hh
+  exact hh.2
+
+theorem mem_hostPart' {c : Char} {g : UrlG} (h : c ∈ g.hostPart) : c ∈ g.host ∨ c = '[' ∨ c = ']' := by
+  unfold UrlG.hostPart at h
+  cases hb : g.br with
+  | false => rw [hb] at h; exact Or.inl (by simpa using h)
+  | true =>
+    rw [hb] at h
+    simp only [if_true, List.mem_cons, List.mem_append, List.not_mem_nil, or_false] at h
+    rcases h with h | h | h
+    · exact Or.inr (Or.inl h)
+    · exact Or.inl h
+    · exact Or.inr (Or.inr h)
+
+/-- no netloc delimiter in the authority -/
+theorem netloc_nodelim {g : UrlG} (h : WFacts g) : ∀ c ∈ g.netloc, c ∉ ['/', '?', '#'] := by
   intro c hc hbad
+  have hbad5 : c ∈ ['/', '?', '#', '[', ']'] := by
+    simp only [List.mem_cons, List.not_mem_nil, or_false] at hbad ⊢
+    rcases hbad with h | h | h <;> simp [h]
+  have hbad6 : c ∈ ['/', '?', '#', '@', '[', ']'] := by
+    simp only [List.mem_cons, List.not_mem_nil, or_false] at hbad ⊢
+    rcases hbad with h | h | h <;> simp [h]
   simp only [UrlG.netloc, List.mem_append] at hc
   rcases hc with hc | hc | hc
   · rcases mem_uiPart hc with ⟨u, hu, hcu⟩ | rfl
-    · have hui := h.ui; rw [hu] at hui; exact free_iff.1 (freeOpt_some hui) c hcu hbad
+    · have hui := h.ui; rw [hu] at hui; exact free_iff.1 (freeOpt_some hui) c hcu hbad5
     · revert hbad; decide
-  · have := free_iff.1 h.host c hc
-    apply this
-    simp only [List.mem_cons, List.not_mem_nil, or_false] at hbad ⊢
-    rcases hbad with h | h | h | h | h <;> simp [h]
+  · rcases mem_hostPart' hc with hc | rfl | rfl
+    · exact free_iff.1 (host_free h) c hc hbad6
+    · revert hbad; decide
+    · revert hbad; decide
   · rcases mem_portPart' hc with ⟨q, hq, hcq⟩ | rfl
     · have hp := h.port; rw [hq] at hp
-      have := free_iff.1 (freeOpt_some hp) c hcq
-      apply this
-      simp only [List.mem_cons, List.not_mem_nil, or_false] at hbad ⊢
-      rcases hbad with h | h | h | h | h <;> simp [h]
+      exact free_iff.1 (freeOpt_some hp) c hcq hbad6
     · revert hbad; decide
 
-theorem hostPort_no_at {g : UrlG} (h : WFacts g) : '@' ∉ g.host ++ portPart g.port := by
-  intro hc
-  rcases List.mem_append.1 hc with hc | hc
-  · exact free_not_mem h.host (by simp) hc
-  · rcases mem_portPart' hc with ⟨q, hq, hcq⟩ | h'
-    · have hp := h.port; rw [hq] at hp
-      exact free_not_mem (freeOpt_some hp) (by simp) hcq
-    · cases h'
+theorem port_no {g : UrlG} (h : WFacts g) {c : Char} (hc : c ∈ ['/', '?', '#', '@', '[', ']']) :
+    c ∉ portPart g.port := by
+  intro hm
+  rcases mem_portPart' hm with ⟨q, hq, hcq⟩ | h'
+  · have hp := h.port; rw [hq] at hp
+    exact free_not_mem (freeOpt_some hp) hc hcq
+  · subst h'; revert hc; decide
 
-theorem hostPort_no_lbr {g : UrlG} (h : WFacts g) : '[' ∉ g.host ++ portPart g.port := by
+theorem hostPort_no_at {g : UrlG} (h : WFacts g) : '@' ∉ g.hostPart ++ portPart g.port := by
   intro hc
   rcases List.mem_append.1 hc with hc | hc
-  · exact free_not_mem h.host (by simp) hc
-  · rcases mem_portPart' hc with ⟨q, hq, hcq⟩ | h'
-    · have hp := h.port; rw [hq] at hp
-      exact free_not_mem (freeOpt_some hp) (by simp) hcq
-    · cases h'
+  · rcases mem_hostPart' hc with hc | hc | hc
+    · exact free_not_mem (host_free h) (by simp) hc
+    · cases hc
+    · cases hc
+  · exact port_no h (by simp) hc
+
+theorem hostPort_no_lbr {g : UrlG} (h : WFacts g) (hb : g.br = false) :
+    '[' ∉ g.host ++ portPart g.port := by
+  intro hc
+  rcases List.mem_append.1 hc with hc | hc
+  · exact free_not_mem (host_free h) (by simp) hc
+  · exact port_no h (by simp) hc
 
 /-! ## the scheme prefix: `PROTOCOL_RE`, `splitScheme`, the cleaning step of `urlsplit` -/
 
@@ -357,10 +414,10 @@ theorem parseAuthority_scheme (sc sc' rest : Str) :
 
 /-! ## the authority and the tail -/
 
-theorem isNetlocDelim_false_of {c : Char} (h : c ∉ ['/', '?', '#', '[', ']']) :
+theorem isNetlocDelim_false_of {c : Char} (h : c ∉ ['/', '?', '#']) :
     (!isNetlocDelim c) = true := by
   simp only [List.mem_cons, List.not_mem_nil, or_false, not_or] at h
-  simp [isNetlocDelim, h.1, h.2.1, h.2.2.1]
+  simp [isNetlocDelim, h.1, h.2.1, h.2.2]
 
 theorem tail_head_delim {g : UrlG} (h : WFacts g) :
     ∀ c, g.tail.head? = some c → (!isNetlocDelim c) = false := by
@@ -384,11 +441,45 @@ theorem tail_head_delim {g : UrlG} (h : WFacts g) :
       | some f => rw [hf] at hc; simp [qPart, fPart] at hc; subst hc; decide
       | none => rw [hf] at hc; simp [qPart, fPart] at hc
 
-theorem netlocOk_free {nl : Str} (h : ∀ c ∈ nl, c ∉ ['/', '?', '#', '[', ']']) : netlocOk nl = true := by
-  have hl : '[' ∉ nl := fun hm => h _ hm (by simp)
-  have hr : ']' ∉ nl := fun hm => h _ hm (by simp)
-  unfold netlocOk
-  simp [hl, hr]
+theorem netlocOk_netloc {g : UrlG} (h : WFacts g) : netlocOk g.netloc = true := by
+  cases hb : g.br with
+  | false =>
+    have hl : '[' ∉ g.netloc := by
+      intro hm
+      simp only [UrlG.netloc, UrlG.hostPart, hb, Bool.false_eq_true, if_false, List.mem_append] at hm
+      rcases hm with hm | hm | hm
+      · rcases mem_uiPart hm with ⟨u, hu, hcu⟩ | h'
+        · have hui := h.ui; rw [hu] at hui; exact free_not_mem (freeOpt_some hui) (by simp) hcu
+        · cases h'
+      · exact free_not_mem (host_free h) (by simp) hm
+      · exact port_no h (by simp) hm
+    have hr : ']' ∉ g.netloc := by
+      intro hm
+      simp only [UrlG.netloc, UrlG.hostPart, hb, Bool.false_eq_true, if_false, List.mem_append] at hm
+      rcases hm with hm | hm | hm
+      · rcases mem_uiPart hm with ⟨u, hu, hcu⟩ | h'
+        · have hui := h.ui; rw [hu] at hui; exact free_not_mem (freeOpt_some hui) (by simp) hcu
+        · cases h'
+      · exact free_not_mem (host_free h) (by simp) hm
+      · exact port_no h (by simp) hm
+    unfold netlocOk
+    simp [hl, hr]
+  | true =>
+    have e : g.netloc = Ural.TldUrl.netlocBr g.ui g.host g.port := by
+      unfold UrlG.netloc UrlG.hostPart Ural.TldUrl.netlocBr
+      rw [hb]
+      cases g.ui <;> cases g.port <;> simp [uiPart, portPart, Ural.TldUrl.uiPart, Ural.TldUrl.portPart]
+    rw [e, Ural.TldUrl.netlocOk_netlocBr]
+    · exact host_br_ok h hb
+    · intro u hu
+      have hui := h.ui; rw [hu] at hui
+      exact ⟨free_not_mem (freeOpt_some hui) (by simp), free_not_mem (freeOpt_some hui) (by simp)⟩
+    · exact ⟨free_not_mem (host_free h) (by simp), free_not_mem (host_free h) (by simp),
+        free_not_mem (host_free h) (by simp)⟩
+    · intro p hp
+      have hpp := h.port; rw [hp] at hpp
+      exact ⟨free_not_mem (freeOpt_some hpp) (by simp), free_not_mem (freeOpt_some hpp) (by simp),
+        free_not_mem (freeOpt_some hpp) (by simp)⟩
 
 /-- the accessors on the authority of the grammar -/
 theorem userinfo_netloc {g : UrlG} (h : WFacts g) :
@@ -405,7 +496,7 @@ theorem userinfo_netloc {g : UrlG} (h : WFacts g) :
     rfl
 
 theorem hostinfoStr_netloc {g : UrlG} (h : WFacts g) :
-    hostinfoStr g.netloc = g.host ++ portPart g.port := by
+    hostinfoStr g.netloc = g.hostPart ++ portPart g.port := by
   unfold hostinfoStr UrlG.netloc
   cases hu : g.ui with
   | none => simp only [uiPart, List.nil_append, splitLast_notMem _ _ (hostPort_no_at h)]
@@ -414,13 +505,28 @@ theorem hostinfoStr_netloc {g : UrlG} (h : WFacts g) :
       splitLast_append_sep _ _ _ (hostPort_no_at h)]
 
 theorem hostPortStr_netloc {g : UrlG} (h : WFacts g) :
-    hostPortStr (g.host ++ portPart g.port) = (g.host, g.port.getD []) := by
-  unfold hostPortStr
-  rw [splitFirst_notMem_s20 _ _ (hostPort_no_lbr h)]
-  have hcol : ':' ∉ g.host := free_not_mem h.host (by simp)
-  cases hp : g.port with
-  | none => simp [portPart, splitFirst_notMem_s20 _ _ hcol]
-  | some p => simp [portPart, splitFirst_append_sep_s20 _ _ _ hcol]
+    hostPortStr (g.hostPart ++ portPart g.port) = (g.host, g.port.getD []) := by
+  unfold hostPortStr UrlG.hostPart
+  cases hb : g.br with
+  | false =>
+    simp only [Bool.false_eq_true, if_false]
+    rw [splitFirst_notMem_s20 _ _ (hostPort_no_lbr h hb)]
+    have hcol : ':' ∉ g.host := host_no_colon h hb
+    cases hp : g.port with
+    | none => simp [portPart, splitFirst_notMem_s20 _ _ hcol]
+    | some p => simp [portPart, splitFirst_append_sep_s20 _ _ _ hcol]
+  | true =>
+    simp only [if_true]
+    have hrb : ']' ∉ g.host := free_not_mem (host_free h) (by simp)
+    have e1 : splitFirst ('[' :: (g.host ++ [']']) ++ portPart g.port) '[' =
+        ([], some (g.host ++ ']' :: portPart g.port)) := by
+      rw [List.cons_append, splitFirst_cons_s20, if_pos rfl]
+      simp
+    rw [e1]
+    simp only [splitFirst_append_sep_s20 _ _ _ hrb, Option.getD_some]
+    cases hp : g.port with
+    | none => simp [portPart, splitFirst_nil_s20]
+    | some p => simp [portPart, splitFirst_cons_s20]
 
 theorem hostinfo_netloc {g : UrlG} (h : WFacts g) :
     hostinfo g.netloc = (g.host, if g.port.getD [] = [] then none else some (g.port.getD [])) := by
@@ -485,13 +591,13 @@ theorem parseAuthority_rest (g : UrlG) (h : WFacts g) (sc : Str) :
         password := g.ui.bind fun u => (splitFirst u ':').2,
         hostname := if g.host = [] then none else some (lowerHost g.host),
         port := po } := by
-  have hfree := netloc_free h
+  have hfree := netloc_nodelim h
   have htw : g.rest.takeWhile (fun c => !isNetlocDelim c) = g.netloc :=
     takeWhile_append_stop _ _ _ (fun c hc => isNetlocDelim_false_of (hfree c hc)) (tail_head_delim h)
   have hdw : g.rest.dropWhile (fun c => !isNetlocDelim c) = g.tail :=
     dropWhile_append_stop _ _ _ (fun c hc => isNetlocDelim_false_of (hfree c hc)) (tail_head_delim h)
   unfold parseAuthority
-  simp only [htw, hdw, netlocOk_free hfree, if_true, port_netloc h]
+  simp only [htw, hdw, netlocOk_netloc h, if_true, port_netloc h]
   obtain ⟨t1, t2, t3⟩ := tail_split h
   cases portVal g.port with
   | none => rfl
